@@ -1,7 +1,7 @@
 SPECIFICATION GSpec
 CONSTANTS
   Depth = 3
-  GenClasses = {"ddl", "delete", "insert", "locking_read", "multi_rr", "multi_rw", "multi_wr", "read", "select_into", "txstart", "unparseable", "update", "utility", "writing_cte"}
+  GenClasses = {"ddl", "delete", "insert", "locking_read", "multi_rr", "multi_rtx", "multi_rw", "multi_txr", "multi_txw", "multi_wr", "read", "select_into", "txstart", "unparseable", "update", "utility", "writing_cte"}
   GenKeys = {}
   GenShows = {}
 INVARIANT Emit
